@@ -221,6 +221,9 @@ def cases(tier, seed):
     for which in ("heartbeat", "bootup"):
         for hbs in ([], [5], [0], [5, 4], [5, 0], [0, 5]):
             out.append({"part": "wait", "which": which, "hbs": hbs, "P": P})
+        # two application threads wait for the same node
+        for hbs in ([5], [0], [0, 5]):
+            out.append({"part": "wait2", "which": which, "hbs": hbs, "P": 2})
     return out
 
 
@@ -302,14 +305,83 @@ def run_case(case, st):
     elif case["part"] == "hb256":
         probe_all_heartbeats([tuple(e) for e in case["hist"]], st, case)
         st.nontrivial_n += 1
+    elif case["part"] == "wait2":
+        run_wait2(case, st)
     else:
         run_wait(case, st)
 
 
 # ------------------------------------------------------------------ waits (explorer C)
+def run_wait2(case, st):
+    """Two waiters on one NmtMaster: every waiter whose wait had begun when a matching message was processed returns."""
+    import canopen.nmt as nmt_mod
+    vsched.interpose(nmt_mod.NmtMaster, {"_state_received", "_state", "timestamp", "_heartbeats", "_bootups", "_bootup_received"})
+    which, hbs, P = case["which"], case["hbs"], case["P"]
+    TIMEOUT = 1.0
+
+    def harness(s):
+        m = nmt_mod.NmtMaster(5)
+        m.add_heartbeat_callback(lambda state: s.note(("hb-cs", state)))
+        t0 = simenv.W.now
+
+        def waiter():
+            try:
+                r = m.wait_for_heartbeat(TIMEOUT) if which == "heartbeat" else m.wait_for_bootup(TIMEOUT)
+                return ("returned", r, round(simenv.W.now - t0, 4))
+            except nmt_mod.NmtError:
+                return ("NmtError", None, round(simenv.W.now - t0, 4))
+
+        def receiver():
+            for i, b in enumerate(hbs):
+                m.on_heartbeat(0x705, bytes([b]), 10.0 + i)
+        ws = [s.spawn(waiter, "w1"), s.spawn(waiter, "w2")]
+        s.spawn(receiver, "receiver")
+        return lambda: ([w.res if w.exc is None else ("EXC", repr(w.exc)[:80], 0) for w in ws], tuple(s.events), s.deadlock)
+
+    def on_exec(s, out):
+        results, events, deadlock = out
+        st.evaluations += 1
+        st.traces += 1
+        st.transitions += len(s.trace)
+        if s.pre:
+            st.nontrivial.add((which, "2", tuple(hbs), tuple(t[1] for t in s.trace)))
+        rc = dict(case, schedule=[t[1] for t in s.trace])
+        if deadlock:
+            st.violation(f"C11:wait2:{which}:deadlock", rc, "no deadlock", deadlock)
+            return
+        if s.hit_horizon:
+            st.caps.append("schedule horizon hit")
+            return
+        for name, res in zip(("w1", "w2"), results):
+            if res[0] == "EXC":
+                st.violation(f"C11:wait2:{which}:exception", rc, "state or NmtError", res[1])
+                return
+            first_wait = next((i for i, e in enumerate(events) if e[:2] == ("wait-enter", name)), None)
+            during = [e[1] for i, e in enumerate(events) if e[0] == "hb-cs" and first_wait is not None and i > first_wait]
+            matching = during if which == "heartbeat" else [x for x in during if x == 0]
+            st.outcome(f"{which} two waiters: during={bool(matching)} -> {res[0]}")
+            if matching and res[0] != "returned":
+                st.violation(f"C11:wait2:{which}:missed", rc, f"{name} returns (messages {during} were processed during its wait)",
+                             f"{results} events={events}"[:400])
+                return
+            if not during and res[0] != "NmtError":
+                st.violation(f"C11:wait2:{which}:spurious", rc, f"{name}: NmtError (nothing arrived during its wait)",
+                             f"{results} events={events}"[:400])
+                return
+
+    if "schedule" in case:
+        on_exec(*vsched.replay(harness, case))
+        return
+    stats = vsched.explore_with_crosscheck(st, harness, P, on_exec, case)
+    st.states += stats["executions"]
+    st.count("schedules", stats["executions"])
+    st.count("schedules_with_preemption", stats["with_preemption"])
+    st.sample({"wait2": which, "heartbeats": hbs, "schedules": stats["executions"]}, cap=8)
+
+
 def run_wait(case, st):
     import canopen.nmt as nmt_mod
-    vsched.interpose(nmt_mod.NmtMaster, {"_state_received", "_state", "timestamp"})
+    vsched.interpose(nmt_mod.NmtMaster, {"_state_received", "_state", "timestamp", "_heartbeats", "_bootups", "_bootup_received"})
     which, hbs, P = case["which"], case["hbs"], case["P"]
     TIMEOUT = 1.0
 
